@@ -20,6 +20,8 @@ def main():
         if not os.path.exists(mp):
             continue
         meta = json.load(open(mp))
+        if os.path.exists(os.path.join(d, "OBSOLETE.txt")):
+            continue   # the repaired code no longer has the mechanism this change broke
         if only and not meta["id"].startswith(only):
             continue
         m = re.match(r"(C\d+)-(C\d+)-m(\d+)", meta["id"])
